@@ -9,10 +9,21 @@ ASSUMPTIONS = sorted(set(getattr(c12_mq, 'ASSUMPTIONS', []) + getattr(c12_stamp,
 TRUSTED_EXTRA = sorted(set(getattr(c12_mq, 'TRUSTED_EXTRA', []) + getattr(c12_stamp, 'TRUSTED_EXTRA', [])))
 
 
+_CTX = []
+
+
+def _family(k):
+    return (c12_mq.run_family, c12_stamp.run_family)[k](_CTX[0])
+
+
 def run(ctx):
-    a = c12_mq.run_family(ctx)
-    b = c12_stamp.run_family(ctx)
-    f = c12_frac.run_family(ctx)        # oracle-only: counters and Monitor samples on non-integer packet sizes (outside the Lean replay)
+    # the two replayed families are independent: run them side by side (forked workers inherit ctx), the third one here
+    import multiprocessing
+    _CTX[:] = [ctx]
+    with multiprocessing.get_context('fork').Pool(2) as pool:
+        ra, rb = pool.apply_async(_family, (0,)), pool.apply_async(_family, (1,))
+        f = c12_frac.run_family(ctx)        # oracle-only: counters and Monitor samples on non-integer packet sizes (outside the Lean replay)
+        a, b = ra.get(), rb.get()
     cov = {}
     ca, cb = a.get('coverage', {}), b.get('coverage', {})
     for k in ('evaluations', 'distinct_nontrivial', 'traces_validated_against_impl'):
